@@ -4,7 +4,8 @@ afterwards.  A write to a temporary name that is renamed away, a probe outside t
 re-created bystander: none of these shows in a before/after snapshot.
 
 case = {"line": harness line (mode real), "op": "verify"|"repair"|"create", "writes": set of virtual paths the operation
-        may write (create/truncate/rename-to), "below": virtual directory every access must stay below (or None)}
+        may write (create/truncate/rename-to), "below": virtual directory every access must stay below (or None),
+        optionally "writes_prefix": any path with this prefix may be written too, except those in "forbidden"}
 """
 import codecs
 import os
@@ -60,8 +61,15 @@ def judge(case, section):
             dirs_ok.add(d)
             d = os.path.dirname(d)
     for call, paths, rest in calls:
+        writeish = call in WRITE_CALLS or (call in ("open", "openat", "openat2") and any(f in rest for f in WRITE_FLAGS))
         for p in paths:
             if p.startswith(RUNTIME_PREFIXES) or p in ("", "."):
+                continue
+            if not writeish and not case.get("below_reads"):
+                # the properties speak of creating, modifying and deleting: a read that merely fails (PAR1 accepts the
+                # entry name ".." and the read of that directory fails) is counted, not judged
+                if not p.startswith(root + "/") or (below and not (p[len(root):] == below or p[len(root):].startswith(below.rstrip("/") + "/"))):
+                    case["reads_outside"] = case.get("reads_outside", 0) + 1
                 continue
             if not p.startswith(root + "/") and p != root:
                 bad.append("%s touches %r, outside the working tree" % (call, p))
@@ -69,7 +77,6 @@ def judge(case, section):
             v = p[len(root):]
             if below and not (v == below or v.startswith(below.rstrip("/") + "/")):
                 bad.append("%s touches %s, outside the set's directory %s" % (call, v, below))
-        writeish = call in WRITE_CALLS or (call in ("open", "openat", "openat2") and any(f in rest for f in WRITE_FLAGS))
         if not writeish:
             continue
         for p in paths:
@@ -78,6 +85,10 @@ def judge(case, section):
             v = p[len(root):]
             if call in ("mkdir", "mkdirat") and v in dirs_ok:
                 continue
+            wp = case.get("writes_prefix")
+            if wp and v.startswith(wp) and v not in (case.get("forbidden") or ()):
+                if call in ("mkdir", "mkdirat") or "/../" not in v:
+                    continue
             if v not in allowed:
                 bad.append("%s on %s, which %s may not write" % (call, v, case["op"]))
     return bad
